@@ -61,12 +61,13 @@ def run(ctx):
     # one worker (every finish is acknowledged at once) and a body the WARC writer needs a while for: killed at the
     # very first delete, the finished seed must already be in the WARC
     modes.append("big+kill:lq.delete:1")
+    modes.append("big503+kill:lq.delete:1")
     if ctx.replay:
         modes = []
     from concurrent.futures import ThreadPoolExecutor
     results = []
     with ThreadPoolExecutor(max_workers=8) as ex:
-        futs = {ex.submit(two_runs, ctx, "m%d" % i, m, *((3, 1) if m.startswith("big+") else (8, 2))): m for i, m in enumerate(modes)}
+        futs = {ex.submit(two_runs, ctx, "m%d" % i, m, *((3, 1) if m.startswith("big") else (8, 2))): m for i, m in enumerate(modes)}
         for f in futs:
             try:
                 results.append((futs[f],) + f.result())
